@@ -80,8 +80,15 @@ StartOp ==
 
 Consulting == pc = "idle" /\ lastRes.res = "QuantumExceeded" /\ op.kind = "limited"
 
-\* a callback may panic wherever SLG.tla's Panic action is enabled
-CanPanic == pc \notin {"idle", "exit", "panicked"} \/ (pc = "idle" /\ op.phase \in {"stream"})
+\* a callback can panic where the engine calls into the database: building a table (the root's, or a subgoal's during select_subgoal)
+\* and unifying an answer into a strand (merge of a positive literal)
+CanPanic ==
+  \/ pc = "idle" /\ op.phase = "stream" /\ ~HasTable(cur.goal)
+  \/ pc = "select" /\ held # <<>> /\ held[1].sel = 0 /\ held[1].lits # <<>> /\ ~HasTable(held[1].lits[Len(held[1].lits)].g)
+  \/ /\ pc = "selected" /\ held # <<>> /\ held[1].sel # 0
+     /\ LET s == held[1]  t == s.selT + 1 IN
+          s.lits[s.sel].pos /\ s.selA < Len(tables[t].answers)
+          /\ ~(tables[TopT].mode = "Complete" /\ tables[t].answers[s.selA + 1].amb)
 \* crash point of a "panic" call: the callback panics instead of the engine's k-th event
 PanicNow == cur.kind = "panic" /\ nev + 1 = cur.k /\ CanPanic
 
@@ -150,6 +157,9 @@ ResultsCorrectUnlessLost ==
 PanicSafe ==
   \A i \in 1..Len(results) :
      (results[i].kind = "solve" /\ NoPanicClassUpTo(i)) => results[i].class = TruthClass(results[i].goal)
+
+\* no strand is ever lost to a panic (the former deviation SLG_PanicWhileStrandHeld, repaired by fix F28)
+NothingLost == lost = <<>>
 
 \* C11: an interrupted solve returns the full answer or "Ambiguous; no guidance"
 InterruptSafe ==
